@@ -32,6 +32,89 @@ def _canon(t):
     return tuple(_canon(x) for x in t)
 
 
+def _at_set(t):
+    """(array, index, value) of ``array.at[index].set(value)``, else None."""
+    if t[0] == "call" and t[1][0] == "a" and t[1][2] == "set" and t[1][1][0] == "s" \
+            and t[1][1][1][0] == "a" and t[1][1][1][2] == "at" and len(t[2]) == 1:
+        return t[1][1][1][1], t[1][1][2], t[2][0]
+    return None
+
+
+def _tree_at_set(t):
+    """(tree, index, values) of ``tree.map(lambda d, p: d.at[index].set(p), tree, values)``."""
+    if t[0] == "call" and (fn_name(t[1]) or "") in ("jax.tree.map", "jax.tree_util.tree_map") \
+            and len(t[2]) == 3 and t[2][0][0] == "lambda" and len(t[2][0][1]) == 2:
+        d, p_ = t[2][0][1]
+        inner = _at_set(t[2][0][2])
+        if inner is not None and inner[0] == n(d) and inner[2] == n(p_):
+            return t[2][1], inner[1], t[2][2]
+    return None
+
+
+def _recording_obligations(ctx, repo, of, ro, body):
+    # ---- before the loop
+    init_hist = [val for loc, val, _, _ in ro.stores
+                 if loc[0] == "s" and loc[2] == c("history")]
+    H = init_hist[0] if len(init_hist) == 1 else None
+    P0 = [val for loc, val, _, _ in ro.stores if loc[0] == "s" and loc[2] == c("position")
+          and H is not None and loc[1] != H]
+    P0 = P0[0] if P0 else None
+    last = {}
+    prev = {}
+    for loc, val, nd, cond in ro.stores:
+        if H is not None and loc[0] == "s" and loc[1] == H and loc[2][0] == "c":
+            key = (loc[2][1], tuple(cond))
+            prev[key] = last.get(key)
+            last[key] = val
+    ok0 = {}
+    for hk, fn_suffix in (("loss_train", "_neg_log_prob_train"),
+                          ("loss_validation", "_neg_log_prob_validation")):
+        v = last.get((hk, ()))
+        parts = _at_set(v) if v is not None else None
+        ok0[hk] = (parts is not None and parts[1] == c(0) and parts[0] == prev.get((hk, ()))
+                   and parts[2][0] == "call" and parts[2][1][0] == "fn"
+                   and parts[2][1][1].endswith(fn_suffix)
+                   and P0 is not None and kw(parts[2], "position", 0) == P0)
+    sp_ = ((n("save_position_history"), True),)
+    v = last.get(("position", sp_))
+    parts = _tree_at_set(v) if v is not None else None
+    ok0["position"] = (parts is not None and parts[1] == c(0) and P0 is not None
+                       and parts[2] == P0 and parts[0] == prev.get(("position", sp_)))
+    ctx.ob("C20.R2", of, "row 0 of every history holds the start: the start position and "
+                         "the training / validation loss evaluated at it (the best-iteration "
+                         "search may pick index 0)", all(ok0.values()),
+           detail=str(ok0), stmt="start recording " + str(sorted(k for k, v_ in ok0.items() if not v_)))
+    # ---- inside the loop body
+    rb = evaluate(repo, body, closure=ro.closure())
+    V = rb.ret()
+    okb = {}
+    if V is not None:
+        cnt = [val for loc, val, _, _ in rb.stores if loc == ("s", V, c("while_i"))]
+        I = cnt[-1] if cnt else None
+        okb["counter"] = I == ("op", "+", ("s", V, c("while_i")), c(1))
+        HV = ("s", V, c("history"))
+        PV = ("s", V, c("position"))
+        for hk, fn_suffix, msk in (("loss_train", "_neg_log_prob_train", "model_state_train"),
+                                   ("loss_validation", "_neg_log_prob_validation",
+                                    "model_state_validation")):
+            vals = [val for loc, val, _, cond in rb.stores if loc == ("s", HV, c(hk))]
+            parts = _at_set(vals[-1]) if vals else None
+            okb[hk] = (parts is not None and parts[0] == ("s", HV, c(hk)) and parts[1] == I
+                       and parts[2][0] == "call" and parts[2][1][0] == "fn"
+                       and parts[2][1][1].endswith(fn_suffix)
+                       and kw(parts[2], "position", 0) == PV
+                       and kw(parts[2], "model_state", 1) == ("s", V, c(msk)))
+        vals = [(val, cond) for loc, val, _, cond in rb.stores if loc == ("s", HV, c("position"))]
+        parts = _tree_at_set(vals[-1][0]) if vals else None
+        okb["position"] = (parts is not None and parts[0] == ("s", HV, c("position"))
+                           and parts[1] == I and parts[2] == PV
+                           and vals[-1][1] == ((n("save_position_history"), True),))
+    ctx.ob("C20.R2", body, "each iteration records, at the incremented counter, the position "
+                           "reached by that iteration and both losses evaluated at exactly "
+                           "that position", bool(okb) and all(okb.values()), detail=str(okb),
+           stmt="iteration recording " + str(sorted(k for k, v_ in okb.items() if not v_)))
+
+
 def check(ctx):
     repo = ctx.repo
     ctx.rule("R1", "the PRNG key carried by the optimisation loop is replaced by a fresh key "
@@ -131,6 +214,8 @@ def check(ctx):
                       and last_val[2] == "patience")
         ctx.ob("C20.R2", of, "the user's patience is restored before the best iteration is "
                              "located", ok_pat, stmt="patience restore")
+        # ---- what is recorded: row 0 = the start, row i = the state after iteration i
+        _recording_obligations(ctx, repo, of, ro, body)
         # R3
         hist_t = kw(rt, "history", 4)
         bound = ("op", "+", it_, c(1)) if it_ is not None else None
